@@ -190,7 +190,7 @@ func ConfirmRace(doc, defaultSchemaURI, instanceJSON string, applyDefaults bool)
 	if err := os.WriteFile(testFile, []byte(src), 0o644); err != nil {
 		return false, err.Error()
 	}
-	ov, _ := json.Marshal(map[string]any{"Replace": map[string]string{"/repo/jsonschema/zz_verif_race_test.go": testFile}})
+	ov, _ := json.Marshal(map[string]any{"Replace": map[string]string{RepoDir + "/jsonschema/zz_verif_race_test.go": testFile}})
 	ovFile := filepath.Join(dir, "overlay.json")
 	os.WriteFile(ovFile, ov, 0o644)
 	cmd := exec.Command("go", "test", "-race", "-vet=off", "-count=1", "-overlay", ovFile, "-run", "TestVerifRace", "./jsonschema")
@@ -249,7 +249,7 @@ func ConfirmRaceBody(rounds int, setup, body string) (bool, string) {
 	if err := os.WriteFile(testFile, []byte(src), 0o644); err != nil {
 		return false, err.Error()
 	}
-	ov, _ := json.Marshal(map[string]any{"Replace": map[string]string{"/repo/jsonschema/zz_verif_race_test.go": testFile}})
+	ov, _ := json.Marshal(map[string]any{"Replace": map[string]string{RepoDir + "/jsonschema/zz_verif_race_test.go": testFile}})
 	ovFile := filepath.Join(dir, "overlay.json")
 	os.WriteFile(ovFile, ov, 0o644)
 	cmd := exec.Command("go", "test", "-race", "-vet=off", "-count=1", "-overlay", ovFile, "-run", "TestVerifRace", "./jsonschema")
